@@ -117,6 +117,8 @@ func TestVerifE5Replay(t *testing.T) {
 		vfE5ReplayExitScan(t, name)
 	case "exit_races_pending_notify":
 		vfE5ReplayExitNotify(t, name)
+	case "exit_races_req", "exit_races_req_deferred", "exit_races_touch":
+		vfE5ReplayExitAnswer(t, name)
 	case "f9_pump_holds":
 		vfE5ReplayF9Pump(t, name)
 	case "f9_put_after_exit_check":
@@ -393,9 +395,17 @@ func vfE5ReplayF9Put(t *testing.T, name string) {
 	res := make(chan error, 1)
 	go func() { res <- topic.PutMessage(NewMessage(topic.GenerateID(), []byte("m"))) }()
 	g.wait(t)
-	// ... Exit closes and flushes the topic, then the publisher's queue write happens
+	// ... Exit closes and flushes the topic, then the publisher's queue write happens; or (tree with
+	// the topic-exit barrier) Exit waits for the publisher's read lock: give it ample time, then let
+	// the publisher go on
 	close(ge.release)
-	exit := <-exitRes
+	exit := ""
+	exitedFirst := false
+	select {
+	case exit = <-exitRes:
+		exitedFirst = true
+	case <-time.After(1500 * time.Millisecond):
+	}
 	close(g.release)
 	var perr error
 	select {
@@ -403,9 +413,78 @@ func vfE5ReplayF9Put(t *testing.T, name string) {
 	case <-time.After(5 * time.Second):
 		perr = fmt.Errorf("publisher blocked")
 	}
+	if exit == "" {
+		exit = <-exitRes
+	}
 	n2 := vfE5Restart(t, opts, dir)
 	depth := vfE5TotalDepth(n2, "f9", "c")
-	fmt.Printf("E5REPLAY %s acked=%v exit=%s depth_after_restart=%d lost=%v\n", name, perr == nil, exit, depth, perr == nil && depth == 0)
+	fmt.Printf("E5REPLAY %s acked=%v exit=%s exit_finished_while_publisher_parked=%v depth_after_restart=%d lost=%v\n",
+		name, perr == nil, exit, exitedFirst, depth, perr == nil && depth == 0)
+	n2.Exit()
+}
+
+// A consumer's answer racing the shutdown: REQ (immediate or deferred) or TOUCH has taken the message
+// out of the in-flight map (parked at chan.req.afterPop / chan.touch.afterPop) when NSQD.Exit() is
+// called.  If Exit can run to its end while the answer is parked, Channel.flush sees the message in no
+// container: it is written nowhere, and the answer then either fails with "exiting" (REQ 0) or puts it
+// into a map of a closed channel (REQ > 0, TOUCH).  After a restart the message must still be there.
+func vfE5ReplayExitAnswer(t *testing.T, name string) {
+	dir := t.TempDir()
+	opts := vfE5Opts(dir)
+	opts.MemQueueSize = 10
+	n, err := New(opts)
+	if err != nil {
+		t.Fatal(err)
+	}
+	n.LoadMetadata()
+	n.PersistMetadata()
+	go n.Main()
+	topic := n.GetTopic("xa")
+	ch := topic.GetChannel("c")
+	acked := 0
+	for i := 0; i < 2; i++ {
+		if topic.PutMessage(NewMessage(topic.GenerateID(), []byte{byte(i)})) == nil {
+			acked++
+		}
+	}
+	for d := time.Now().Add(5 * time.Second); ch.Depth() < 2 && time.Now().Before(d); {
+		time.Sleep(time.Millisecond)
+	}
+	msg := <-ch.memoryMsgChan
+	msg.Attempts++
+	ch.StartInFlightTimeout(msg, 77, time.Minute)
+	point := "chan.req.afterPop"
+	op := func() error { return ch.RequeueMessage(77, msg.ID, 0) }
+	switch name {
+	case "exit_races_req_deferred":
+		op = func() error { return ch.RequeueMessage(77, msg.ID, time.Minute) }
+	case "exit_races_touch":
+		point = "chan.touch.afterPop"
+		op = func() error { return ch.TouchMessage(77, msg.ID, time.Minute) }
+	}
+	g := vfE5NewGate(point)
+	var operr error
+	ans := make(chan string, 1)
+	go func() { ans <- vfE5Try(20*time.Second, func() { operr = op() }) }()
+	g.wait(t)
+	exitRes := make(chan string, 1)
+	go func() { exitRes <- vfE5Try(20*time.Second, func() { n.Exit() }) }()
+	exit := ""
+	exitedFirst := false
+	select {
+	case exit = <-exitRes:
+		exitedFirst = true
+	case <-time.After(1500 * time.Millisecond):
+	}
+	close(g.release)
+	ansRes := <-ans
+	if exit == "" {
+		exit = <-exitRes
+	}
+	n2 := vfE5Restart(t, opts, dir)
+	depth := vfE5TotalDepth(n2, "xa", "c")
+	fmt.Printf("E5REPLAY %s acked=%d exit=%s answer=%s answer_err=%v exit_finished_while_answer_parked=%v depth_after_restart=%d lost=%v\n",
+		name, acked, exit, ansRes, operr != nil, exitedFirst, depth, depth < int64(acked))
 	n2.Exit()
 }
 
